@@ -791,15 +791,16 @@ theorem untouched_after_close {s2 : State} (j : J s2) (pre R : List Ev) (u : Nat
 theorem OrdAll_of_perm {cfg : Cfg} (h : ∀ l : List Nat, (cfg.order l).Perm l) : OrdAll cfg :=
   fun l x hx => (h l).mem_iff.mpr hx
 
-/-- the same, from the simulation at the *end* of the stretch -/
+/-- the same, from the simulation at the *end* of the stretch; `X` may count fewer connections as ready than `A2` -/
 theorem obs_stable_end {cfg : Cfg} {X A2 : A} {s2 : State} (hs : Sim cfg A2 s2) (ao : AllOpen s2) (evs : List Ev)
-    (hlive : ∀ o ∈ X.mods, o.alive = true → (Spec.closes evs).contains o.uid = false → A2.live o.uid = some o)
-    (hw : A2.w = X.w) (hf : A2.fail = X.fail)
+    (hlive : ∀ o ∈ X.mods, o.alive = true → Spec.subscribed o cfg.mtClosed = true →
+      (Spec.closes evs).contains o.uid = false → A2.live o.uid = some o)
+    (hw : ∀ u, u ∈ X.w → u ∈ A2.w) (hf : A2.fail = X.fail)
     (o : AMod) (ho : o ∈ X.mods) (hob : Spec.isObserver cfg X evs o = true) : Stable cfg s2 o.uid := by
   unfold Spec.isObserver at hob
   simp only [Bool.and_eq_true, Bool.not_eq_eq_eq_not, Bool.not_true] at hob
   obtain ⟨⟨⟨⟨hal, hsub⟩, hrdy⟩, hnf⟩, hnc⟩ := hob
-  have hlv := hlive o ho hal hnc
+  have hlv := hlive o ho hal hsub hnc
   obtain ⟨hg, _⟩ := Spec.live_some.mp hlv
   have hu0 : o.uid ≠ 0 := uid_pos hs.uids (Spec.get_mem hg)
   obtain ⟨m, hfm⟩ := Option.isSome_iff_exists.mp ((hs.live o.uid hu0).mp (by simp [hlv]))
@@ -820,14 +821,15 @@ theorem obs_stable_end {cfg : Cfg} {X A2 : A} {s2 : State} (hs : Sim cfg A2 s2) 
     rw [Bool.or_eq_true] at hrdy
     rcases hrdy with h | h
     · left
-      exact (hs.w o.uid (by simp [hlv])).mp (by rw [hw]; exact List.contains_iff_mem.mp h)
+      exact (hs.w o.uid (by simp [hlv])).mp (hw _ (List.contains_iff_mem.mp h))
     · right
       rw [← hsm.isLogger]; exact h
 
 theorem dep_ext_end {cfg : Cfg} {X A2 : A} {s2 : State} (hs : Sim cfg A2 s2) (ao : AllOpen s2) (j : J s2) (t : T s2)
     (pre evs : List Ev) (he : s2.out = pre ++ evs)
-    (hlive : ∀ o ∈ X.mods, o.alive = true → (Spec.closes evs).contains o.uid = false → A2.live o.uid = some o)
-    (hw : A2.w = X.w) (hf : A2.fail = X.fail)
+    (hlive : ∀ o ∈ X.mods, o.alive = true → Spec.subscribed o cfg.mtClosed = true →
+      (Spec.closes evs).contains o.uid = false → A2.live o.uid = some o)
+    (hw : ∀ u, u ∈ X.w → u ∈ A2.w) (hf : A2.fail = X.fail)
     (md : Option Nat) (d : DepE cfg md none s2 evs) (hmd : ∀ u, md = some u → Ev.close u ∈ evs) :
     Spec.ErrExt ["C14"] X (Spec.checkDepartures cfg X md evs) := by
   refine Spec.checkDepartures_c07 cfg X md evs hmd d.just (fun v hv => adj_mem evs v d.adj hv) (fun v => ?_)
@@ -852,12 +854,52 @@ theorem dep_ext_fin {cfg : Cfg} {T' : List String} {X0 X : A} {s2 : State} (pre 
     (md : Option Nat) (d : DepE cfg md none s2 evs) (hmd : ∀ u, md = some u → Ev.close u ∈ evs) :
     Spec.ErrExt ["C14"] X (Spec.checkDepartures cfg X md evs) := by
   obtain ⟨_, c2, c3, _, _⟩ := Spec.applyDepartures_core X0 evs
-  refine dep_ext_end hs ao j t pre evs he (fun o ho hal hnc => ?_) (by rw [c3, hX.w]) (by rw [c2, hX.fail]) md d hmd
+  refine dep_ext_end hs ao j t pre evs he (fun o ho hal _ hnc => ?_) (fun u hu => by rw [c3, ← hX.w]; exact hu)
+    (by rw [c2, hX.fail]) md d hmd
   rw [Spec.applyDepartures_live, hnc]
   simp only [Bool.false_eq_true, if_false]
   have hnd : (X0.mods.map (·.uid)).Nodup := by
     have := uids_nodup hs.uids
     rw [Spec.applyDepartures_uids] at this; exact this
   exact live_of_mem hnd (by rw [← hX.mods]; exact ho) hal
+
+/-- a stretch of events in two parts (the accept branch, then — after the poll — the periodic section), each with its own
+    simulation at its end; `X` counts as ready only what both count as ready -/
+theorem dep_ext_two {cfg : Cfg} {X A1 A2 : A} {s1 s2 : State} (pre0 e1 e2 : List Ev)
+    (hs1 : Sim cfg A1 s1) (ao1 : AllOpen s1) (hs2 : Sim cfg A2 s2) (ao2 : AllOpen s2) (j2 : J s2) (t2 : T s2)
+    (he2 : s2.out = pre0 ++ (e1 ++ e2))
+    (hlive1 : ∀ o ∈ X.mods, o.alive = true → Spec.subscribed o cfg.mtClosed = true →
+      (Spec.closes (e1 ++ e2)).contains o.uid = false → A1.live o.uid = some o)
+    (hlive2 : ∀ o ∈ X.mods, o.alive = true → Spec.subscribed o cfg.mtClosed = true →
+      (Spec.closes (e1 ++ e2)).contains o.uid = false → A2.live o.uid = some o)
+    (hw1 : ∀ u, u ∈ X.w → u ∈ A1.w) (hw2 : ∀ u, u ∈ X.w → u ∈ A2.w) (hf1 : A1.fail = X.fail) (hf2 : A2.fail = X.fail)
+    (d1 : DepE cfg none none s1 e1) (d2 : DepE cfg none none s2 e2) :
+    Spec.ErrExt ["C14"] X (Spec.checkDepartures cfg X none (e1 ++ e2)) := by
+  refine Spec.checkDepartures_c07 cfg X none (e1 ++ e2) (fun u hu => by cases hu) (fun v hv => ?_)
+    (fun v hv => adj_mem _ v (adj_append _ _ d1.adj d2.adj) hv) (fun v => ?_) (fun o c f v hm' hb => ?_)
+    (fun v hv o ho hob hne => ?_)
+  · rcases List.mem_append.mp hv with h | h
+    · exact Or.inr (List.mem_append.mpr (Or.inl ((d1.just v h).resolve_left (by simp))))
+    · exact Or.inr (List.mem_append.mpr (Or.inr ((d2.just v h).resolve_left (by simp))))
+  · have := j2.phi v
+    unfold phi at this
+    rw [he2, closeCnt_append] at this
+    omega
+  · rcases List.mem_append.mp hm' with h | h
+    · exact List.mem_append.mpr (Or.inl ((d1.ntc o c f v h hb).resolve_left (by simp)))
+    · exact List.mem_append.mpr (Or.inr ((d2.ntc o c f v h hb).resolve_left (by simp)))
+  · have hge : 1 ≤ nTo (e1 ++ e2) o.uid v := by
+      rcases List.mem_append.mp hv with h | h
+      · have hst := obs_stable_end hs1 ao1 (e1 ++ e2) hlive1 hw1 hf1 o ho hob
+        obtain ⟨c, f, hmem, hb⟩ := d1.lb v h o.uid hst hne
+        unfold nTo
+        exact List.countP_pos_iff.mpr ⟨_, List.mem_append.mpr (Or.inl hmem), by simp [isNotice, hb]⟩
+      · have hst := obs_stable_end hs2 ao2 (e1 ++ e2) hlive2 hw2 hf2 o ho hob
+        obtain ⟨c, f, hmem, hb⟩ := d2.lb v h o.uid hst hne
+        unfold nTo
+        exact List.countP_pos_iff.mpr ⟨_, List.mem_append.mpr (Or.inr hmem), by simp [isNotice, hb]⟩
+    have hle := t2 o.uid v
+    rw [he2, nTo_append] at hle
+    omega
 
 end Pyrtma.Mgr
